@@ -500,15 +500,39 @@ func (fx *fnExec) evalCall(e *Expr, env *Env) TV {
 			panic(contractErr("unknown type " + tn))
 		}
 		return TV{Sc{eq(v.Tag, num(int64(tag))), SBool}, tBool}
+	case "wfArgs": // every node-typed parameter (or slice of nodes) handed in is well-formed
+		var cs []string
+		for _, name := range sortedKeys(env.vars) {
+			if name == "result" || name == "recv" || strings.HasPrefix(name, "result") {
+				continue
+			}
+			tv := env.vars[name]
+			if tv.T == nil {
+				continue
+			}
+			cs = append(cs, fx.wfTerm(tv, env))
+		}
+		return TV{Sc{and(cs...), SBool}, tBool}
+	case "wfLocals": // every loop-carried node value (phi of this loop head) is well-formed
+		var cs []string
+		if env.fr != nil && env.at != nil {
+			for _, in := range env.at.Instrs {
+				phi, ok := in.(*ssa.Phi)
+				if !ok {
+					break
+				}
+				if v, ok := env.fr.vals[phi]; ok {
+					cs = append(cs, fx.wfTerm(TV{v, phi.Type()}, env))
+				}
+			}
+		}
+		return TV{Sc{and(cs...), SBool}, tBool}
+	case "wf": // ghost well-formedness of a node reference (true for nil and for non-references)
+		v := fx.eval(e.Args[0], env)
+		return TV{Sc{fx.wfTerm(v, env), SBool}, tBool}
 	case "notNil": // reference results: non-nil and not a typed nil; anything else: true
 		v := fx.eval(e.Args[0], env)
-		switch x := v.V.(type) {
-		case IfV:
-			return TV{Sc{and(not(eq(x.Tag, "0")), not(eq(x.Ref, "0"))), SBool}, tBool}
-		case PtrV:
-			return TV{Sc{not(eq(x.Addr, "0")), SBool}, tBool}
-		}
-		return TV{Sc{"true", SBool}, tBool}
+		return TV{Sc{notNilTerm(v.V), SBool}, tBool}
 	case "isNil":
 		v := fx.eval(e.Args[0], env)
 		switch x := v.V.(type) {
@@ -788,6 +812,9 @@ func (fx *fnExec) modLocsEnv(env *Env, m *Expr, st *State) []modLoc {
 	for _, l := range g.leaves(elem) {
 		out = append(out, modLoc{leaf: p.HT + p.Path + l.Path, sort: l.S, addr: p.Addr, viaLeaves: via})
 		g.leafSorts[p.HT+p.Path+l.Path] = l.S
+		if l.Ref {
+			g.leafRef[p.HT+p.Path+l.Path] = true
+		}
 	}
 	_ = star
 	return out
@@ -923,4 +950,45 @@ func (fr *frame) callResult(name string, at *ssa.BasicBlock) (Val, types.Type, b
 	}
 	v, ok := fr.vals[found]
 	return v, found.Type(), ok
+}
+
+// wfTerm: v is nil, or a well-formed node (not a typed nil); for slices of nodes: every element is a
+// non-nil well-formed node; true for values that are not node references.
+func (fx *fnExec) wfTerm(v TV, env *Env) string {
+	switch x := v.V.(type) {
+	case TupleV:
+		var cs []string
+		if tt, ok := v.T.(*types.Tuple); ok {
+			for i, e := range x.V {
+				cs = append(cs, fx.wfTerm(TV{e, tt.At(i).Type()}, env))
+			}
+		}
+		return and(cs...)
+	case SliceV:
+		if fx.g.isNodeRefType(x.Elem) {
+			return fx.wfAllTerm(env.cur, x)
+		}
+		return "true"
+	}
+	ref, isNil, typedNil, ok := refOf(v.V)
+	if !ok || !fx.g.isNodeRefType(v.T) {
+		return "true"
+	}
+	return or(isNil, and(not(typedNil), fx.wfOf(env.cur, ref)))
+}
+
+func notNilTerm(v Val) string {
+	switch x := v.(type) {
+	case IfV:
+		return and(not(eq(x.Tag, "0")), not(eq(x.Ref, "0")))
+	case PtrV:
+		return not(eq(x.Addr, "0"))
+	case TupleV:
+		var cs []string
+		for _, e := range x.V {
+			cs = append(cs, notNilTerm(e))
+		}
+		return and(cs...)
+	}
+	return "true"
 }
